@@ -1298,6 +1298,7 @@ class Compiler:
                         self._emit(OpCode.STORE_CELL, cell_slot)
                         self._emit(OpCode.POP)
                     else:
+                        self._emit(OpCode.POS)  # postfix yields ToNumber(old value)
                         self._emit(OpCode.DUP)
                         self._emit(inc_op)
                         self._emit(OpCode.STORE_CELL, cell_slot)
@@ -1312,6 +1313,7 @@ class Compiler:
                             self._emit(OpCode.STORE_LOCAL, slot)
                             self._emit(OpCode.POP)
                         else:
+                            self._emit(OpCode.POS)  # postfix yields ToNumber(old value)
                             self._emit(OpCode.DUP)
                             self._emit(inc_op)
                             self._emit(OpCode.STORE_LOCAL, slot)
@@ -1327,6 +1329,7 @@ class Compiler:
                                 self._emit(OpCode.STORE_CLOSURE, closure_slot)
                                 self._emit(OpCode.POP)
                             else:
+                                self._emit(OpCode.POS)  # postfix yields ToNumber(old value)
                                 self._emit(OpCode.DUP)
                                 self._emit(inc_op)
                                 self._emit(OpCode.STORE_CLOSURE, closure_slot)
@@ -1340,6 +1343,7 @@ class Compiler:
                                 self._emit(OpCode.STORE_NAME, idx)
                                 self._emit(OpCode.POP)
                             else:
+                                self._emit(OpCode.POS)  # postfix yields ToNumber(old value)
                                 self._emit(OpCode.DUP)
                                 self._emit(inc_op)
                                 self._emit(OpCode.STORE_NAME, idx)
@@ -1372,7 +1376,8 @@ class Compiler:
                     self._emit(OpCode.SET_PROP)  # [nv, nv]
                     self._emit(OpCode.POP)  # [nv]
                 else:
-                    # a.x++: return old value
+                    # a.x++: return old value (converted to a number)
+                    self._emit(OpCode.POS)  # [obj, prop, old_value]
                     self._emit(OpCode.DUP)  # [obj, prop, old_value, old_value]
                     self._emit(inc_op)  # [obj, prop, old_value, new_value]
                     # Rearrange: [obj, prop, old_value, new_value] -> [old_value, obj, prop, new_value]
